@@ -111,7 +111,7 @@ class RateLimiter(BaseRateLimiter):
                         )
                         return True
                     recent_timestamps.insert(0, self._timestamp())
-                    if "." in key:
+                    if key not in ("global", "ip"):
                         # specific ip address rules take precedence
                         # stop evaluating global and ip rules
                         return False
